@@ -1293,7 +1293,11 @@ Witness:\n{self.witness}
                     raise KeyError("Wrong length for the key")
                 if hash_type:
                     raise KeyError(f"Duplicate Key in parsing: {key.hex()}")
-                hash_type = little_endian_to_int(read_varstr(s))
+                hash_type_bytes = read_varstr(s)
+                # BIP174: the sighash type is a 32-bit unsigned integer
+                if len(hash_type_bytes) != 4:
+                    raise ValueError("sighash type should be 4 bytes")
+                hash_type = little_endian_to_int(hash_type_bytes)
             elif psbt_type == PSBT_IN_REDEEM_SCRIPT:
                 if len(key) != 1:
                     raise KeyError("Wrong length for the key")
